@@ -297,7 +297,8 @@ def u_units_ops(I):
     return {'inputs': {}}
 
 
-INPLACE = [('__iadd__', '__add__'), ('__isub__', '__sub__'), ('__imul__', '__mul__'), ('__itruediv__', '__truediv__'), ('__ipow__', '__pow__')]
+INPLACE = [('__iadd__', '__add__'), ('__isub__', '__sub__'), ('__imul__', '__mul__'), ('__itruediv__', '__truediv__'), ('__ipow__', '__pow__'),
+           ('__ifloordiv__', '__floordiv__')]        # the classes define // (as their division): a //= b must be that operator too, not numpy's
 
 
 def u_inplace(I):
@@ -307,7 +308,7 @@ def u_inplace(I):
     ctx = I.ctx
     W_ = I.world
     cname = ['ArrayQuantity', 'Quantity'][ctx.choose([True, True], 'class')]
-    iop, op = INPLACE[ctx.choose([True] * 5, 'operator')]
+    iop, op = INPLACE[ctx.choose([True] * len(INPLACE), 'operator')]
     cls = source.module(QTY).classes[cname]
     m = W_.find_method(cls, iop)
     if m is None:
@@ -345,6 +346,11 @@ def replay_inplace(model, state, ob):
                 pass
             except Exception as e:    # noqa
                 bad.append('%s: %s' % (nm, type(e).__name__))
+        a = np.array([1.0, 2.0]) * eval_qty('1 m')
+        a3 = a
+        a3 //= np.array([1.0, 2.0]) * eval_qty('1 s')
+        if not (hasattr(a3, '_units') and str(a3._units) == 'm/s'):
+            bad.append('a //= seconds keeps units %s' % getattr(a3, '_units', None))
         a = np.array([1.0, 2.0]) * eval_qty('1 m')
         a2 = a.__imul__(np.array([1.0, 2.0]) * eval_qty('1 s'))
         if not (hasattr(a2, '_units') and str(a2._units) in ('m*s', 's*m', 'm s')):
@@ -395,5 +401,7 @@ UNITS += [
     Unit('in-place operators of quantities', (QTY, 'GenericQuantity.__add__'), u_inplace, replay_inplace),
 ]
 
+from . import C11conv      # noqa: E402  (conversion between quantities of different dimension raises the units error)
+UNITS += C11conv.UNITS
 from . import standins     # noqa: E402
 STANDINS = [standins.c11_algebra]
